@@ -763,6 +763,37 @@ class SymStr:
     def __format__(self, spec):
         return repr(self)
 
+    def encode(self, encoding='utf-8', errors='strict'):
+        """str.encode for ascii / latin-1 / utf-8 (forks on the class of each symbolic code point)"""
+        enc = encoding.lower().replace('-', '').replace('_', '')
+        out = []
+        for i, c in enumerate(self.cps):
+            if enc in ('ascii', 'usascii'):
+                if not (c < 128):
+                    if errors == 'strict':
+                        raise UnicodeEncodeError('ascii', '?', i, i + 1, 'ordinal not in range(128)')
+                    out.append(63)
+                    continue
+                out.append(c)
+            elif enc in ('latin1', 'iso88591'):
+                if not (c < 256):
+                    raise UnicodeEncodeError('latin-1', '?', i, i + 1, 'ordinal not in range(256)')
+                out.append(c)
+            elif enc == 'utf8':
+                if c < 0x80:
+                    out.append(c)
+                elif c < 0x800:
+                    out += [0xC0 + c // 64, 0x80 + c % 64]
+                elif c < 0x10000:
+                    if (c >= 0xD800) and (c <= 0xDFFF):
+                        raise UnicodeEncodeError('utf-8', '?', i, i + 1, 'surrogates not allowed')
+                    out += [0xE0 + c // 4096, 0x80 + (c // 64) % 64, 0x80 + c % 64]
+                else:
+                    out += [0xF0 + c // 262144, 0x80 + (c // 4096) % 64, 0x80 + (c // 64) % 64, 0x80 + c % 64]
+            else:
+                raise Unsupported('encode ' + encoding)
+        return SymBytes.of(out)
+
     def __contains__(self, sub):
         if isinstance(sub, str):
             sub = SymStr([ord(c) for c in sub])
@@ -1057,6 +1088,8 @@ class int_shim(metaclass=_IntMeta):
 
 def chr_shim(x):
     if isinstance(x, SymInt):
+        if CUR is not None and CUR.implied(z3.And(x.t >= 0, x.t <= 0x10FFFF)):
+            return SymStr([x])
         return MARK + '<chr>'
     return chr(x)
 
